@@ -166,6 +166,23 @@ func c01Templates(r *Rand) []c01Case {
 		add("ref", fmt.Sprintf("A:\n    !type T:\n        x <: int\n        y <: %s\n", t))
 		add("ref-param", fmt.Sprintf("A:\n    Ep (p <: %s):\n        return ok <: %s\n", t, t))
 	}
+	// import closures in which one file is imported under two names / versions while a sibling
+	// chain is still being collected (the conflict is an error; it must be reported, not hang)
+	multi := func(kind string, files map[string]string) { out = append(out, c01Case{Kind: kind, Files: files}) }
+	leafApp := "S:\n    Ep:\n        ...\n"
+	multi("import-conflict-appname", map[string]string{
+		"main.sysl": "import shared as Common\nimport b\nA:\n    Ep:\n        ...\n",
+		"b.sysl":    "import shared as Shared\nimport c\nB:\n    Ep:\n        ...\n",
+		"c.sysl":    "import d\nC:\n    Ep:\n        ...\n", "d.sysl": "D:\n    Ep:\n        ...\n", "shared.sysl": leafApp})
+	multi("import-conflict-appname-2", map[string]string{
+		"main.sysl": "import b\nimport shared as One\nimport c\nA:\n    Ep:\n        ...\n",
+		"b.sysl":    "import c\nimport shared as Two\nB:\n    Ep:\n        ...\n",
+		"c.sysl":    "import d\nimport shared as Three\nC:\n    Ep:\n        ...\n", "d.sysl": "import shared\nD:\n    Ep:\n        ...\n", "shared.sysl": leafApp})
+	multi("import-same-twice", map[string]string{
+		"main.sysl": "import shared\nimport shared\nimport ./shared\nA:\n    Ep:\n        ...\n", "shared.sysl": leafApp})
+	multi("import-diamond-cycle", map[string]string{
+		"main.sysl": "import b\nimport c\nA:\n    Ep:\n        ...\n", "b.sysl": "import d\nB:\n    Ep:\n        ...\n",
+		"c.sysl": "import d\nimport main\nC:\n    Ep:\n        ...\n", "d.sysl": "import b\nD:\n    Ep:\n        ...\n"})
 	_ = r
 	return out
 }
